@@ -168,13 +168,21 @@ def check(spec):
                 with open(path, 'w') as fh:
                     a.save(fh, filetype='lmpdat', atom_format=style)
                 b3 = Atoms.load(path, atom_format=style)
-            for bb in (b1, b2, b3):
+                # a path whose extension says nothing (or something else) with the file type given explicitly, as str and as pathlib.Path
+                import pathlib
+                p4, p5 = os.path.join(d, 'data.uio66'), pathlib.Path(d) / 'frame.mol'
+                a.save(p4, filetype='lmpdat', atom_format=style)
+                b4 = Atoms.load(p4, filetype='lmpdat', atom_format=style)
+                a.save(p5, filetype='lmpdat', atom_format=style)
+                b5 = Atoms.load(p5, filetype='lmpdat', atom_format=style)
+                if open(p4).read() != open(path).read() or open(p5).read() != open(path).read():
+                    return "Atoms.save with an explicit filetype='lmpdat' writes something else than it does to a .lmpdat path"
+            for bb in (b1, b2, b3, b4, b5):
                 if len(bb.positions) != n or (n and not np.allclose(bb.positions, a.positions, atol=6e-7)):
                     return "Atoms.save / Atoms.load by path or file object do not reproduce the structure"
         finally:
-            if os.path.exists(path):
-                os.unlink(path)
-            os.rmdir(d)
+            import shutil
+            shutil.rmtree(d, ignore_errors=True)
     return None
 
 
